@@ -612,7 +612,13 @@ def tget (τ : TState) (T : Nat) (idx : TIdx) : Except Err TState :=
       | some (σ2, d) => .ok ⟨σ2, τ.tracts ++ [⟨σ.seqs.length, d, n⟩]⟩
       | none => .error .value
 
-def keysOf (d : List (Nat × Nat)) : List Nat := (d.map (·.1)).mergeSort (fun a b => decide (a ≤ b))
+/-- insertion into a sorted list of keys -/
+def insertKey (k : Nat) : List Nat → List Nat
+  | [] => [k]
+  | x :: xs => if k ≤ x then k :: x :: xs else x :: insertKey k xs
+
+/-- `sorted(d.keys())` -/
+def keysOf (d : List (Nat × Nat)) : List Nat := (d.map (·.1)).foldr insertKey []
 
 /-- the loop of `PerArrayDict.extend`, tractogram.py:166-170 with `_extend_entry` of
     `PerArraySequenceDict` (195-197): a key the receiver lacks gets `ArraySequence(other[key])` — a VIEW of
@@ -663,7 +669,7 @@ def tstep (τ : TState) : TOp → TState × Option Err
     | .ok σ' => (⟨σ', τ.tracts⟩, none)
     | .error e => (τ, some e)
   | .tnew src dpp asList w =>
-      if (match src with | none => true | some s => decide (s < τ.st.seqs.length)) &&
+      if src.all (fun s => decide (s < τ.st.seqs.length)) &&
           dpp.all (fun kf => decide (kf.2 < τ.st.seqs.length)) then
         match tnew τ src dpp asList w with
         | some τ' => (τ', none)
